@@ -5,6 +5,17 @@ VERIF = os.path.dirname(os.path.dirname(os.path.abspath(__file__)))
 ALL = ["C%02d" % i for i in range(1, 20)]
 
 CHECKS = {
+ "C01": dict(
+   technique="sanitizer oracle (ASan+UBSan, fatal reports) + crash/foreign-exception monitor over construct matrix, harvested/mutated programs, random bytes, three entry routes; libFuzzer in the thorough tier",
+   text="Every operator, builtin and member is applied to a pool of ~75 values of every type (typed/untyped nulls, boundary integers and doubles, 8-bit "
+        "strings, bytes, tuples, nested tables) through typed variables, opaque variables and opaque function results so that both the compile-time "
+        "and the run-time type checks are reached; the repository's own texts (tests, manuals, msgdb) are harvested at run time, token-mutated and "
+        "truncated; random and bit-flipped byte strings including 1023/1024-byte lines are fed as well. Each text goes through Parser::parse/"
+        "Executable::run, the C API, the interactive statement route, a fragmenting reader, and (sampled) the real bloc binary. A case holds iff it "
+        "ends in completed/ParseError/RuntimeError with no sanitizer report, signal, std::terminate or foreign exception.",
+   note="trusted: gcc sanitizer runtimes; out-of-domain (counted): allocation-size-too-big/OOM/bad_alloc/length_error when the case involves a magnitude > 2^20; "
+        "runaway programs are interrupted after 20000 statements (inconclusive, capped at 2%)",
+   design="4/C01"),
  "C03": dict(
    technique="reference-model monitor over bit-exact evaluations + ASan/UBSan",
    text="Runs the real interpreter (ASan+UBSan build of the working tree) on an exhaustively enumerated integer boundary lattice squared x every "
